@@ -841,9 +841,14 @@ def part_crash(c, quick):
                                 c.violate(f"crash:no-complete-result-file:{ph.split('-')[0]}:{cls}",
                                           dict(info0, crash_at=dict(call_index=idx, call=name, phase=ph, dump_of_step=t),
                                                job_npz=cf2, job_npz_bak=cb2))
-                        elif t == 1 and f0 in ("partial", "complete") and b0 == "complete":
-                            if cf2[0] != "foreign" and cb2[0] != "foreign" and not good:
-                                run.count("observed:restart-removes-old-backup")
+                        elif t == 1 and "complete" in (f0, b0):
+                            # first dump of a job (re)started into a directory that holds a complete result of an earlier
+                            # run: that result ("foreign") or the new one must be there at every instant
+                            if cf2[0] not in ("foreign", "complete") and cb2[0] not in ("foreign", "complete"):
+                                cls = "savez" if "np." in name else name.split(".")[-1]
+                                c.violate(f"crash:restart:first-dump-destroys-previous-result:{ph.split('-')[0]}:{cls}",
+                                          dict(info0, crash_at=dict(call_index=idx, call=name, phase=ph, dump_of_step=t),
+                                               job_npz=cf2, job_npz_bak=cb2))
     finally:
         tdmps.os, tdmps.np = real_os, real_np
 
